@@ -117,6 +117,17 @@ func runRemote(o *opts) {
 		if nst >= 3 {
 			mk("c.yaml", "C", rr.chance(1, 2), nil)
 		}
+		if rr.chance(1, 2) {
+			// a sink: a stage that only consumes (a report, an upload), no outputs of its own. Naming it
+			// as the target still transfers everything upstream of it.
+			last := []string{"A", "B", "C"}[nst-1]
+			if nst == 3 {
+				last = "B"
+			}
+			p.writeStage("report.yaml", &StageRec{Cmd: "true", In: []Art{{Path: last}}})
+			stages = append(stages, "report.yaml")
+			s.count("sink-stage-without-outputs")
+		}
 		if res := p.dud("", append([]string{"stage", "add"}, stages...)...); res.Exit != 0 {
 			must(fmt.Errorf("remote setup: %s", res.Stderr))
 		}
